@@ -153,20 +153,52 @@ Proof.
   - apply kinv_del_quads. auto.
 Qed.
 
-Lemma modify_ok e k w ud un d i om s a : scope e (Modify w ud un d i om) ->
-  kinv s -> qseteq (quads s) a -> step_ok e k (Modify w ud un d i om) s a.
+(* evalModify with a given solution list *)
+Lemma evalModify_ok e k w u d i om s a :
+  (has_dataset e = true \/ (w = None /\ u = false /\ tm_has_quads d = false /\ tm_has_quads i = false)) ->
+  kinv s -> qseteq (quads s) a ->
+  let dg := match w with Some c => c | None => dflt e end in
+  exists s', evalModify e k w u d i om s = Ok s'
+    /\ qseteq (quads s') (qdiff a (s_all e false k dg d om) ++ s_all e true k dg i om) /\ kinv s'.
 Proof.
-  intros Hd Hk Ha. unfold scope in Hd. unfold step_ok. simpl.
-  set (dg := match w with Some c => c | None => dflt e end).
+  intros Hd Hk Ha dg.
   exists (add_quads (m_all e true k dg i om) (del_quads (m_all e false k dg d om) s)). split; [|split].
   - unfold evalModify. destruct (has_dataset e) eqn:Hds; simpl.
     + reflexivity.
-    + destruct Hd as [Hd|Hd]; [discriminate|]. simpl in Hd.
-      apply orb_false_iff in Hd. destruct Hd as [Hd Hi]. apply orb_false_iff in Hd. destruct Hd as [Hd Hdq].
-      apply orb_false_iff in Hd. destruct Hd as [Hd Hun]. apply orb_false_iff in Hd. destruct Hd as [Hw Hud].
-      rewrite Hud. destruct w; [discriminate|]. subst dg. rewrite Hdq, Hi. reflexivity.
+    + destruct Hd as [Hd|[-> [-> [Hdq Hi]]]]; [discriminate|]. subst dg. rewrite Hdq, Hi. reflexivity.
   - intros q. rewrite add_quads_In, del_quads_In, in_app_iff, qdiff_In, (Ha q), !m_all_eq. tauto.
   - apply kinv_add_quads, kinv_del_quads. auto.
+Qed.
+
+Lemma sols_eqb_eq a b : sols_eqb a b = true -> a = b.
+Proof.
+  intros H. unfold sols_eqb in H.
+  destruct (list_eqb_spec _ (list_eqb_spec _ (pair_eqb_spec _ _ N.eqb_spec N.eqb_spec)) a b); congruence.
+Qed.
+
+Lemma modify_ok e k w ud un d i om s a : scope e (Modify w ud un d i om) ->
+  op_kf e k (Modify w ud un d i om) = 0 ->
+  kinv s -> qseteq (quads s) a -> step_ok e k (Modify w ud un d i om) s a.
+Proof.
+  intros Hd Hkf Hk Ha. unfold scope in Hd. unfold step_ok. simpl. simpl in Hkf.
+  destruct (sols_eqb (Sparql.Algebra.dedup om) om) eqn:E; [|discriminate].
+  rewrite (sols_eqb_eq _ _ E).
+  apply evalModify_ok; auto.
+  destruct Hd as [Hd|Hd]; [left; auto|right]. simpl in Hd.
+  apply orb_false_iff in Hd. destruct Hd as [Hd Hi]. apply orb_false_iff in Hd. destruct Hd as [Hd Hdq].
+  apply orb_false_iff in Hd. destruct Hd as [Hd Hun]. apply orb_false_iff in Hd. destruct Hd as [Hw Hud].
+  destruct w; [discriminate|]. rewrite Hud, Hun. auto.
+Qed.
+
+Lemma modify_s_ok e k w ud un d i om s a : scope e (ModifyS w ud un d i om) ->
+  kinv s -> qseteq (quads s) a -> step_ok e k (ModifyS w ud un d i om) s a.
+Proof.
+  intros Hd Hk Ha. unfold scope in Hd. unfold step_ok. simpl.
+  apply evalModify_ok; auto.
+  destruct Hd as [Hd|Hd]; [left; auto|right]. simpl in Hd.
+  apply orb_false_iff in Hd. destruct Hd as [Hd Hi]. apply orb_false_iff in Hd. destruct Hd as [Hd Hdq].
+  apply orb_false_iff in Hd. destruct Hd as [Hd Hun]. apply orb_false_iff in Hd. destruct Hd as [Hw Hud].
+  destruct w; [discriminate|]. rewrite Hud, Hun. auto.
 Qed.
 
 (* graph management *)
